@@ -3,6 +3,16 @@
 import json, os, re, sys
 ROOT = os.path.join(os.path.dirname(os.path.abspath(__file__)), '..', 'seeded')
 NEEDS = {
+ 'C01_1': "a default-order layout of signature S used first, then a layout with the same S and a different blade order (two steps, one process)",
+ 'C01_2': "float or complex operands with coefficients of magnitude <= 1e-12 (e.g. products scaled by 2^-45)",
+ 'C15_1': "a DualFlat in conformalised Cl(4) (pseudoscalar squares to +1)",
+ 'C15_2': "Tangent(E, p) with grade(E) >= 1 and a location with a component inside the direction",
+ 'C16_1': "mixed signature and a non-blade argument whose reverse-norm nearly cancels with coefficients above ~3",
+ 'C16_2': "dimension >= 5 and a dense multivector whose coefficients mostly share a sign (within the <= 1.5 range)",
+ 'C17_1': "exponent exactly 1 or 1.0, then a documented mutator on the result",
+ 'C17_2': "two layouts with equal signature and different grade positions used in one process, and > 128 other projections in between",
+ 'C18_1': "a frame in a mixed signature with En*~En < 0",
+ 'C18_2': "MVArray.sum on elements of different coefficient dtypes with the narrowest first",
  'C02_1': "a custom BasisBladeOrder with more than one grade in non-increasing positions (grades array stored as uint8) and a product of grades r < s",
  'C02_2': "left contraction `A << s` with a plain Python/numpy number on the right",
  'C03_1': "a layout whose storage order does not start with the scalar, and a multivector-with-scalar operation",
